@@ -11,6 +11,7 @@ import (
 	"path"
 	"path/filepath"
 	"strconv"
+	"strings"
 	"sync"
 	"time"
 
@@ -96,7 +97,7 @@ func (f *STFS) Create(name string) (afero.File, error) {
 
 	name = cleanName(name)
 
-	if _, err := inventory.Stat(
+	if parent, err := inventory.Stat(
 		f.metadata,
 
 		filepath.Dir(name),
@@ -109,6 +110,8 @@ func (f *STFS) Create(name string) (afero.File, error) {
 		}
 
 		return nil, err
+	} else if parent.Typeflag != tar.TypeDir {
+		return nil, config.ErrIsFile
 	}
 
 	return f.OpenFile(name, os.O_RDWR|os.O_CREATE|os.O_TRUNC, 0666)
@@ -288,7 +291,7 @@ func (f *STFS) Mkdir(name string, perm os.FileMode) error {
 	f.ioLock.Lock()
 	defer f.ioLock.Unlock()
 
-	if _, err := inventory.Stat(
+	if parent, err := inventory.Stat(
 		f.metadata,
 
 		filepath.Dir(name),
@@ -301,6 +304,8 @@ func (f *STFS) Mkdir(name string, perm os.FileMode) error {
 		}
 
 		return err
+	} else if parent.Typeflag != tar.TypeDir {
+		return config.ErrIsFile
 	}
 
 	if hdr, err := inventory.Stat(
@@ -343,11 +348,14 @@ func (f *STFS) MkdirAll(path string, perm os.FileMode) error {
 	f.ioLock.Lock()
 	defer f.ioLock.Unlock()
 
-	parts := filepath.SplitList(path)
+	parts := strings.Split(filepath.ToSlash(path), "/")
 	currentPath := ""
 
-	for _, part := range parts {
-		if currentPath == "" {
+	for i, part := range parts {
+		if i == 0 && part == "" {
+			// Absolute path
+			currentPath = "/"
+		} else if currentPath == "" {
 			currentPath = part
 		} else {
 			currentPath = filepath.Join(currentPath, part)
@@ -466,7 +474,7 @@ func (f *STFS) OpenFile(name string, flag int, perm os.FileMode) (afero.File, er
 
 			createFile := func() error {
 				if !f.readOnly && flag&os.O_CREATE != 0 && flag&os.O_EXCL == 0 {
-					if _, err := inventory.Stat(
+					if parent, err := inventory.Stat(
 						f.metadata,
 
 						filepath.Dir(name),
@@ -479,6 +487,8 @@ func (f *STFS) OpenFile(name string, flag int, perm os.FileMode) (afero.File, er
 						}
 
 						return err
+					} else if parent.Typeflag != tar.TypeDir {
+						return config.ErrIsFile
 					}
 
 					if target, err := inventory.Stat(
@@ -752,7 +762,7 @@ func (f *STFS) Rename(oldname, newname string) error {
 		}
 	}
 
-	if _, err := inventory.Stat(
+	if parent, err := inventory.Stat(
 		f.metadata,
 
 		filepath.Dir(newname),
@@ -765,6 +775,8 @@ func (f *STFS) Rename(oldname, newname string) error {
 		}
 
 		return err
+	} else if parent.Typeflag != tar.TypeDir {
+		return config.ErrIsFile
 	}
 
 	target, err := inventory.Stat(
@@ -1155,7 +1167,7 @@ func (f *STFS) SymlinkIfPossible(oldname, newname string) error {
 	f.ioLock.Lock()
 	defer f.ioLock.Unlock()
 
-	if _, err := inventory.Stat(
+	if parent, err := inventory.Stat(
 		f.metadata,
 
 		filepath.Dir(newname),
@@ -1168,6 +1180,8 @@ func (f *STFS) SymlinkIfPossible(oldname, newname string) error {
 		}
 
 		return err
+	} else if parent.Typeflag != tar.TypeDir {
+		return config.ErrIsFile
 	}
 
 	if pathext.IsRoot(rawNewName, false) && pathext.IsRoot(rawOldName, false) {
